@@ -287,6 +287,51 @@ def facts_coregen(repo, lean):
 
 
 
+def facts_lazygen(repo, lean):
+    """Tie A (lazy.Eval): harness/cmd/lazy2lean TRANSLATES the struct Eval and every function / method body found in lazy/*.go of the
+    working tree (lazy.go, tailcall_gen.go; test files and verif-tagged files excluded) into FpVerif/Gen/LazyGen.lean (not under
+    version control): the inductive type emitted for the struct (the defunctionalisation of Model/Eval.lean: leaf / cont / logged), Resume,
+    FlatMap, Map, Get, Run (the `for` loop as a fuelled recursion with the same body), Map2, Map, FlatMap, Done, TailCall, Call, Memoize
+    (= the memo-cell primitive), Func1..3, TailCall1..9.  The committed theorems of Spec/C16Gen.lean state, per declaration, that the
+    translated definition is the hand-written model (through the isomorphism toModel / ofModel of the two inductive types), that the
+    files contain nothing else (coverage, memoSites), and restate faithful / run_flatMap / run_tailCall / the monad laws / runLoop_spec
+    for the translated definitions."""
+    out = os.path.join(lean, 'FpVerif', 'Gen', 'LazyGen.lean')
+    os.makedirs(os.path.dirname(out), exist_ok=True)
+    harness = os.path.join(os.path.dirname(lean), 'harness')
+    env = dict(os.environ, GOFLAGS='-mod=mod', GOPROXY='off', GOSUMDB='off', GOTOOLCHAIN='local')
+    tmp_out = out + '.new.%d' % os.getpid()
+    p = subprocess.run(['go', 'run', './cmd/lazy2lean', repo, tmp_out], cwd=harness, env=env, stdout=subprocess.PIPE,
+                       stderr=subprocess.STDOUT, text=True)
+    if p.returncode != 0 or not os.path.exists(tmp_out):
+        if os.path.exists(out):
+            os.remove(out)
+        return dict(error='lazy2lean failed: ' + p.stdout[-800:], obligations=1)
+    # keep the old file (and its build products) when the translation did not change
+    if not os.path.exists(out) or open(out).read() != open(tmp_out).read():
+        os.replace(tmp_out, out)
+    else:
+        os.remove(tmp_out)
+    info = json.loads(p.stdout.strip().split('\n')[-1])
+    res = dict(translated=info['translated'], untranslatable=info['untranslatable'], exceptions=sorted(info['exceptions']),
+               memo_sites=info['memo_sites'], types=info['types'], obligations=2, generated='FpVerif/Gen/LazyGen.lean')
+    if info['untranslatable']:
+        res['error'] = 'lazy2lean: outside the translated fragment: ' + json.dumps(info['untranslatable'])[:800]
+        return res
+    # second obligation: every translated declaration has its committed theorem (<name>_is_model or <name>_def; `Eval.X` -> `Eval_X`)
+    spec = open(os.path.join(lean, 'FpVerif', 'Spec', 'C16Gen.lean')).read()
+    gen = open(out).read()
+    m = re.search(r'^def translated : List String := \[(.*)\]$', gen, re.M)
+    names = re.findall(r'"([^"]+)"', m.group(1)) if m else []
+    missing = [n for n in names
+               if not re.search(r'^theorem %s_(is_model|def)\b' % re.escape(n.replace('.', '_')), spec, re.M)]
+    if not names or missing:
+        res['error'] = 'lazy2lean: translated declarations without a committed theorem: ' + ', '.join(missing or ['<none translated>'])
+    return res
+
+
+
+
 import re as _re
 
 def project_future(line):
@@ -343,8 +388,8 @@ ARITY_H = H('arity', 'oracle_arity', 8000, 400000, spec_level=True, nontrivial=l
 
 CHECKS = {
     'C01': dict(
-        spec=['FpVerif.Spec.C01', 'FpVerif.Spec.C01Inst', 'FpVerif.Spec.C01T', 'FpVerif.Spec.C01TExt', 'FpVerif.Spec.C01Coll', 'FpVerif.Spec.C16', 'FpVerif.Spec.C01Fn', 'FpVerif.Spec.C17', 'FpVerif.Spec.C01Gen', 'FpVerif.Spec.C01CoreGen'],
-        facts=facts_all(facts_monadgen, facts_coregen),
+        spec=['FpVerif.Spec.C01', 'FpVerif.Spec.C01Inst', 'FpVerif.Spec.C01T', 'FpVerif.Spec.C01TExt', 'FpVerif.Spec.C01Coll', 'FpVerif.Spec.C16', 'FpVerif.Spec.C01Fn', 'FpVerif.Spec.C17', 'FpVerif.Spec.C01Gen', 'FpVerif.Spec.C01CoreGen', 'FpVerif.Spec.C16Gen'],
+        facts=facts_all(facts_monadgen, facts_coregen, facts_lazygen),
         harnesses=MONAD_H + [TRYOPT_H, ARITY_H, H('iter', 'oracle_iter', 4000, 400000, spec_level=True, project=project_iter, extra=dict(quick=['-prop', 'C12'], thorough=['-prop', 'C12'])),
                              H('eval', 'oracle_eval', 2000, 100000, spec_level=True, extra=dict(quick=['-deep', '20000'], thorough=['-deep', '200000'])),
                              # the function monads fn0 / fn1 (reader monad over the effect monad)
@@ -576,8 +621,8 @@ CHECKS = {
                      'most one element (single use / pull order of iterators: C12, C20)'],
     ),
     'C16': dict(
-        spec=['FpVerif.Spec.C16', 'FpVerif.Spec.C16Stack', 'FpVerif.Spec.C16Facts', 'FpVerif.Spec.C01Fn', 'FpVerif.Spec.C16Panic', 'FpVerif.Spec.C16PanicEval', 'FpVerif.Spec.C16AtomFacts'],
-        facts=facts_all(facts_factx, facts_atom),
+        spec=['FpVerif.Spec.C16', 'FpVerif.Spec.C16Stack', 'FpVerif.Spec.C16Facts', 'FpVerif.Spec.C01Fn', 'FpVerif.Spec.C16Panic', 'FpVerif.Spec.C16PanicEval', 'FpVerif.Spec.C16AtomFacts', 'FpVerif.Spec.C16Gen'],
+        facts=facts_all(facts_factx, facts_atom, facts_lazygen),
         harnesses=[H('eval', 'oracle_eval', 4000, 200000, spec_level=True,
                      extra=dict(quick=['-deep', '2000000'], thorough=['-deep', '20000000'])),
                    # call depth of every logging user frame (runtime.Callers, relative to the frame calling Run/Get) vs the frame-instrumented model
@@ -819,7 +864,14 @@ for _pid in ('C09', 'C10', 'C11', 'C18'):
     CHECKS[_pid]['modelled'] = CHECKS[_pid].get('modelled', '') + _TIE_A_TC
     CHECKS[_pid]['technique'] = ('Lean 4 proof over hand-written executable model + regenerated Go->Lean translation of the typeclass combinators and the generated '
                                  'TupleN instances proved equal to the model (Tie A) + differential correspondence check')
+CHECKS['C16']['modelled'] = CHECKS['C16'].get('modelled', '') + (' Session 6, Tie A: harness/cmd/lazy2lean TRANSLATES lazy/lazy.go and lazy/tailcall_gen.go of the working tree '
+    '(the Eval struct as the model\'s defunctionalised inductive, 24 functions incl. the Run loop as a fuelled recursion with the same body; exception list empty) into '
+    'FpVerif/Gen/LazyGen.lean; Spec/C16Gen (52 theorems): emitted type isomorphic to EvalM.Eval, every function = its model definition, Run n t log = runLoop n (toModel t) log '
+    'for every fuel, coverage, and faithful / run_* / monad laws / runLoop_spec restated for the translated definitions. Memoize is read as the transparent first-request cell '
+    '(pinned by memoSites_as_committed, C16Facts, C16AtomFacts).')
 for _pid in ('C05', 'C06', 'C19', 'C16'):
     CHECKS[_pid]['modelled'] = CHECKS[_pid].get('modelled', '') + _TIE_C_ATOM
     CHECKS[_pid]['technique'] = ('Lean 4 proof over hand-written executable step-machine model + regenerated atomic-step facts decided by the kernel '
                                  '(Tie C) + differential correspondence check at yield-hook granularity')
+CHECKS['C16']['technique'] = ('Lean 4 proof over hand-written executable model + regenerated Go->Lean translation of lazy/lazy.go proved equal to the model (Tie A) '
+                              '+ regenerated atomic-step / memoisation facts decided by the kernel (Tie C) + differential correspondence check')
